@@ -213,6 +213,17 @@ func (v Value) number() _number {
 	return num
 }
 
+// truncateModulo2to32 converts a finite float to an int64 whose low 32 bits are
+// those of sign(f)*floor(abs(f)) modulo 2**32 (ECMA 262: 9.5 - 9.7).
+// Converting a float outside the int64 range to int64 is undefined in Go, so
+// such values are first reduced modulo 2**32, which is exact for floats.
+func truncateModulo2to32(f float64) int64 {
+	if f >= floatMaxInt64 || f <= floatMinInt64 {
+		f = math.Mod(f, 4294967296)
+	}
+	return int64(f)
+}
+
 // ECMA 262: 9.5.
 func toInt32(value Value) int32 {
 	switch value := value.value.(type) {
@@ -230,7 +241,7 @@ func toInt32(value Value) int32 {
 	}
 
 	// Convert to int64 before int32 to force correct wrapping.
-	return int32(int64(floatValue))
+	return int32(truncateModulo2to32(floatValue))
 }
 
 func toUint32(value Value) uint32 {
@@ -253,7 +264,7 @@ func toUint32(value Value) uint32 {
 	}
 
 	// Convert to int64 before uint32 to force correct wrapping.
-	return uint32(int64(floatValue))
+	return uint32(truncateModulo2to32(floatValue))
 }
 
 // ECMA 262 - 6.0 - 7.1.8.
@@ -273,7 +284,7 @@ func toUint16(value Value) uint16 {
 	}
 
 	// Convert to int64 before uint16 to force correct wrapping.
-	return uint16(int64(floatValue))
+	return uint16(truncateModulo2to32(floatValue))
 }
 
 // toIntSign returns sign of a number converted to -1, 0 ,1.
